@@ -13,13 +13,16 @@ Record dcell := mkD {
   k_M : list (Z * Z);              (* per denom: coefficient, exponent *)
   k_chk : list (Z * Z * option (Z * Z))
                                    (* sparse: user, denom, checkpoint; None = equal to the current
-                                      multiplier of the denom; absent = 0 *)
+                                      multiplier of the denom; absent = 0 *);
+  k_alias : Z                      (* supply of share denoms built from other spellings of the same
+                                      validator address (bech32 also decodes the all upper-case
+                                      string): a second share class over the same delegation *)
 }.
 (* emitted for a cell of the post-state that is identical to the pre-state's *)
-Definition dsame : dcell := mkD (-1) [] 0 None false 0 [] [] [].
+Definition dsame : dcell := mkD (-1) [] 0 None false 0 [] [] [] 0.
 (* emitted (in both states) for a cell the operation does not address and that the harness saw
    unchanged: not shown, not compared *)
-Definition dhid : dcell := mkD (-2) [] 0 None false 0 [] [] [].
+Definition dhid : dcell := mkD (-2) [] 0 None false 0 [] [] [] 0.
 (* user balances and times are emitted relative to these bases (shorter literals) *)
 Definition UB0 : Z := Eval vm_compute in 10 ^ 39.
 Definition ubase (d : Z) : Z := if d =? 1 then 0 else UB0.
@@ -61,7 +64,7 @@ Definition cell_of (k : dcell) : cell :=
   let ch := chk_list k in
   mkCell (k_T k) (nz (k_sh k)) (k_modsh k) (k_B k) (k_sd k) (k_ent k)
          (nz (k_S k)) (nqq ms) (chk_lookup ch).
-Definition dcell0 : dcell := mkD 0 [] 0 None false 0 [] [] [].
+Definition dcell0 : dcell := mkD 0 [] 0 None false 0 [] [] [] 0.
 Definition state_of (d : dstate) : state :=
   let cs := map cell_of (d_cells d) in
   mkState (fun v => if v <? 0 then cell0 else nth (Z.to_nat v) cs cell0)
@@ -83,6 +86,7 @@ Definition zs_eqb (f : Z -> Z) (l : list Z) : bool :=
 (* model cell = observed cell; the entries counter is an oracle and not predicted *)
 Definition cell_eqb (c : cell) (k : dcell) : bool :=
   (k_T k =? -2) ||
+  (k_alias k =? 0) &&      (* the model has one share class per validator *)
   (cT c =? k_T k) && zs_eqb (csh c) (k_sh k) && (cmodsh c =? k_modsh k) &&
   opt_eqb (cB c) (k_B k) && Bool.eqb (csd c) (k_sd k) &&
   zs_eqb (cS c) (k_S k) && qs_eqb (cM c) (k_M k) &&
@@ -173,9 +177,11 @@ Definition zsum (l : list Z) : Z := fold_right Z.add 0 l.
 Definition dcell_at (d : dstate) (v : Z) : dcell :=
   if v <? 0 then dcell0 else nth (Z.to_nat v) (d_cells d) dcell0.
 
-(* 1: share tokens exist only against stake the module has delegated *)
+(* 1: share tokens exist only against stake the module has delegated (one share class per
+   validator: no second denom over the same delegation) *)
 Definition backed_cell (k : dcell) : bool :=
   (k_T k <? 0) ||
+  (k_alias k =? 0) &&
   (k_T k =? zsum (k_sh k) + k_modsh k) && forallb (fun x => 0 <=? x) (k_sh k) && (0 <=? k_T k) &&
   (if 0 <? k_T k then match k_B k with Some b => 0 <? b | None => false end else true).
 Definition mon_backed (c : c10_case) : bool := forallb backed_cell (d_cells (post_of c)).
